@@ -11,6 +11,14 @@ import icontract._checkers as _ck  # noqa: E402
 import icontract._metaclass as _mc  # noqa: E402
 
 
+def _layers(fo):
+    seen = 0
+    while fo is not None and seen < 50:
+        yield fo
+        fo = getattr(fo, "__wrapped__", None)
+        seen += 1
+
+
 def _cid(contract):
     d = getattr(contract, "description", None)
     return int(d[1:]) if isinstance(d, str) and d[1:].isdigit() else None
@@ -101,6 +109,32 @@ class Hist:
         return {"pre": [[_cid(c) for c in g] for g in getattr(ck, "__preconditions__", [])],
                 "snaps": [getattr(s, "_sid", name2sid.get(s.name)) for s in getattr(ck, "__postcondition_snapshots__", [])],
                 "posts": [_cid(c) for c in getattr(ck, "__postconditions__", [])]}
+
+    def member_fids(self):
+        """{class: {key: id of the bare function the member really resolves to}} (functions, static and class methods)"""
+        out = {}
+        for k, cls in self.cls.items():
+            d = {}
+            for c in cls.__mro__:
+                for key, raw in vars(c).items():
+                    if key in d:
+                        continue
+                    fo = raw.__func__ if isinstance(raw, (staticmethod, classmethod)) else raw
+                    if inspect.isfunction(fo):
+                        try:
+                            bare = inspect.unwrap(fo)
+                        except ValueError:
+                            bare = fo
+                        fid = getattr(bare, "_fid", None)
+                        if fid is None:
+                            for layer in _layers(fo):
+                                fid = getattr(layer, "_fid", None)
+                                if fid is not None:
+                                    break
+                        if fid is not None:
+                            d[key] = fid
+            out[str(k)] = d
+        return out
 
     def observe(self):
         k_of = dict((id(c), k) for k, c in self.cls.items())
@@ -227,7 +261,7 @@ class Hist:
                         err = ["ValueError", "snapshot-without-postcondition"]
                     else:
                         err = ["ValueError", msg[:60]]
-                steps.append({"err": err, "obs": self.observe()})
+                steps.append({"err": err, "obs": self.observe(), "fids": self.member_fids()})
         finally:
             if orig_hook is not None:
                 _mc._register_for_hypothesis = orig_hook
